@@ -2,6 +2,7 @@ package sym
 
 import (
 	"fmt"
+	"os"
 	"go/token"
 	"go/types"
 	"math"
@@ -160,6 +161,9 @@ func (p *Path) selectFrom(arr []Value, idx *smt.Term, et types.Type) Value {
 		scalar = b.Info()&(types.IsBoolean|types.IsInteger|types.IsFloat) != 0
 	}
 	if scalar && len(arr) > 0 && len(arr) <= 8192 {
+		if len(arr) > 8 && os.Getenv("GOSYMX_DEBUG") != "" {
+			fmt.Fprintf(os.Stderr, "ite-chain over %d-element table, index vars %v\n%s", len(arr), p.termVars(idx), p.stackString())
+		}
 		ts := make([]*smt.Term, len(arr))
 		for i, e := range arr {
 			ts[i] = p.term(e, et)
@@ -172,6 +176,9 @@ func (p *Path) selectFrom(arr []Value, idx *smt.Term, et types.Type) Value {
 			res = p.C.Ite(p.C.BvSle(idx, p.C.BVS(int64(i), idx.Sort.W)), ts[i], res)
 		}
 		return fromTerm(res, et)
+	}
+	if len(arr) > 32 && os.Getenv("GOSYMX_DEBUG") != "" {
+		fmt.Fprintf(os.Stderr, "concretising index into %d-element table of %v\n%s", len(arr), et, p.stackString())
 	}
 	i := p.concretizeRange(idx, 0, int64(len(arr)-1))
 	return copyVal(arr[i])
@@ -983,11 +990,22 @@ func (p *Path) convFloatToInt(db *types.Basic, x Value) Value {
 // ---------- slices, indexing ----------
 
 func (p *Path) slice(instr *ssa.Slice, x, lo, hi, max Value) Value {
+	limit := 0
+	switch x := x.(type) {
+	case string, *SymStr:
+		limit = strLen(x)
+	case Slice:
+		limit = cap(x.A)
+	case *Value:
+		if x != nil {
+			limit = len((*x).(Array))
+		}
+	}
 	geti := func(v Value, def int) int {
 		if v == nil {
 			return def
 		}
-		return p.concreteIdx(v, def)
+		return p.concreteIdx(v, limit)
 	}
 	switch x := x.(type) {
 	case string, *SymStr:
@@ -1040,6 +1058,7 @@ func (p *Path) concreteIdx(v Value, limit int) int {
 	case uint64:
 		return int(v)
 	case *smt.Term:
+		v = p.simplify(v)
 		if u, ok := v.BVVal(); ok {
 			return int(int64(u))
 		}
@@ -1073,6 +1092,18 @@ func (p *Path) checkIndex(idx Value, n int) (int, *smt.Term) {
 		}
 		return int(v), nil
 	case *smt.Term:
+		v = p.simplify(v)
+		if u, ok := v.BVVal(); ok {
+			sv := int64(u)
+			if v.Sort.W < 64 {
+				// narrow index types are unsigned table indices or were sign-extended by Convert
+				sv = int64(u)
+			}
+			if sv < 0 || sv >= int64(n) {
+				p.runtimePanic(fmt.Sprintf("index out of range [%d] with length %d", sv, n))
+			}
+			return int(sv), nil
+		}
 		w := v.Sort.W
 		in := p.C.And(p.C.BvSle(p.C.BVS(0, w), v), p.C.BvSlt(v, p.C.BVS(int64(n), w)))
 		if w < 64 {
@@ -1085,6 +1116,18 @@ func (p *Path) checkIndex(idx Value, n int) (int, *smt.Term) {
 		if !p.branch(fromTerm(in, types.Typ[types.Bool])) {
 			p.runtimePanic(fmt.Sprintf("index out of range [symbolic] with length %d", n))
 		}
+		if n > 1 {
+			// if the index depends on one input byte only, fork
+			// over its feasible values (found by evaluation, no solver call)
+			if vals := p.enumValues(v); vals != nil && len(vals) <= 128 {
+				conds := make([]*smt.Term, len(vals))
+				for i, k := range vals {
+					conds[i] = p.C.Eq(v, p.C.BV(k, v.Sort.W))
+				}
+				d := p.chooseVerified(conds)
+				return int(vals[d]), nil
+			}
+		}
 		if w < 64 {
 			v = p.C.Zext(v, 64)
 		}
@@ -1093,8 +1136,24 @@ func (p *Path) checkIndex(idx Value, n int) (int, *smt.Term) {
 	panic(fmt.Sprintf("checkIndex %T", idx))
 }
 
+// concretePtr turns a pointer to a symbolically indexed element into an
+// ordinary pointer by forking over the index.
+func (p *Path) concretePtr(v Value) *Value {
+	switch v := v.(type) {
+	case *Value:
+		return v
+	case *SymRef:
+		i := p.concretizeRange(v.idx, 0, int64(len(v.arr)-1))
+		return &v.arr[i]
+	}
+	panic(fmt.Sprintf("concretePtr: %T", v))
+}
+
 func (p *Path) indexAddr(x, idx Value) Value {
 	var arr []Value
+	if sr, ok := x.(*SymRef); ok {
+		x = p.concretePtr(sr)
+	}
 	switch x := x.(type) {
 	case Slice:
 		arr = x.A
